@@ -8,9 +8,10 @@ set -u
 export GOFLAGS=-mod=mod GOPROXY=off GOSUMDB=off GOTOOLCHAIN=local
 V=$(dirname "$(readlink -f "$0")")
 REPO=${VERIF_REPO:-/repo}
-mkdir -p $V/.cache $V/bin
-key=$( { cd $REPO && find . -path ./.git -prune -o -type f \( -name '*.go' -o -name go.mod -o -name go.sum \) -print0 | sort -z | xargs -0 sha256sum; cd $V && find sim harness tools -type f \( -name '*.go' -o -name go.mod \) -print0 | sort -z | xargs -0 sha256sum; } | sha256sum | cut -c1-24)
-C=$V/.cache/$key
+CACHE=${VERIF_CACHE:-$V/.cache}
+mkdir -p $CACHE $V/bin
+key=$( { cd $REPO && find . -path ./.git -prune -o -type f \( -name '*.go' -o -name go.mod -o -name go.sum \) -print0 | sort -z | xargs -0 sha256sum; cd $V && find sim harness tools/instr -type f \( -name '*.go' -o -name go.mod \) -print0 | sort -z | xargs -0 sha256sum; } | sha256sum | cut -c1-24)
+C=$CACHE/$key
 if [ -x $C/h ] && [ -x $C/h.race ] && [ -f $C/ok ]; then
   touch $C/ok
   echo $C
@@ -37,5 +38,5 @@ fi
 touch $C.tmp/ok
 rm -rf $C && mv $C.tmp $C
 # keep at most three cache entries
-ls -1dt $V/.cache/*/ 2>/dev/null | tail -n +4 | xargs -r rm -rf
+ls -1dt $CACHE/*/ 2>/dev/null | tail -n +4 | xargs -r rm -rf
 echo $C
